@@ -16,6 +16,20 @@ LITS = ["12", "3.5", "'s t'", "true", "FALSE", "nil", "0"]
 ASSIGN = ["=", "=", "=", "-=", "+=", ":="]
 
 
+def not_assign(t):
+    """mirror of `Ex.naB` on the abstract tree printed WITHOUT redundant parentheses"""
+    if t[0] != "bin":
+        return True
+    l = t[3]
+    if exspec.level(l) > t[1]:          # printed in parentheses
+        return True
+    if l[0] == "chain":
+        return t[2] != "="
+    if l[0] == "atom":
+        return t[2] != "=" or l[1] not in exspec.IDENTS
+    return not_assign(l)
+
+
 class Gen:
     def __init__(self, r, edepth=3):
         self.r = r
@@ -37,19 +51,40 @@ class Gen:
     def name(self):
         return self.r.choice(KW_NAMES) if self.r.chance(1, 8) else self.r.choice(NAMES)
 
+    def put(self, t, redundant=True):
+        """append the expression `t` (an abstract tree of `exspec`)"""
+        words, prefix = exspec.render(self.r, t, redundant)
+        off = len(self.words)
+        self.prefix += ["#%d" % (int(w[1:]) + off) if w.startswith("#") else w for w in prefix]
+        self.words += words
+
     def ex(self, redundant=True):
-        t = exspec.gen(self.r, self.r.below(self.edepth + 1))
-        exspec.render(self.r, t, 8, self.words, self.prefix, redundant)
+        self.put(exspec.gen(self.r, self.r.below(self.edepth + 1)), redundant)
+
+    def lhs(self):
+        """an assignment target: a member-access chain (identifiers, calls, indexings joined by `.`)"""
+        t = exspec.gen_chain(self.r, self.r.below(self.edepth))
+        self.count("lhs:chain%d" % min(len(t[1]), 3))
+        self.put(t, False)
 
     def ex_stmt(self):
-        """an expression that may stand as a statement: it starts with a literal"""
-        lit = ("atom", self.r.choice(LITS))
-        if self.r.chance(1, 2):
-            t = lit
-        else:
-            lv = 1 + self.r.below(len(exspec.LEVELS))
-            t = ("bin", lv, self.r.choice(exspec.LEVELS[lv - 1]), lit, exspec.gen(self.r, self.r.below(self.edepth)))
-        exspec.render(self.r, t, 8, self.words, self.prefix, False)
+        """an expression that may stand as a statement: `parse_assignment` must not take it (not `chain = …` at its
+        left end) and its first token must be one no earlier statement parser — and no preceding expression — reacts to"""
+        for _ in range(50):
+            c = self.r.below(4)
+            if c == 0:
+                t = exspec.gen_chain(self.r, 1 + self.r.below(self.edepth))      # calls, `a.b.c(1)`
+            elif c == 1:
+                t = ("post", exspec.gen_chain(self.r, self.r.below(self.edepth)), self.r.choice(exspec.POST))
+            else:
+                t = exspec.gen(self.r, self.r.below(self.edepth + 1))
+            words, _ = exspec.render(self.r, t, False)
+            if words[0] in ("-", "(", "[") or not not_assign(t):
+                continue
+            self.count("expr-stmt:" + t[0])
+            self.put(t, False)
+            return
+        self.put(("atom", "12"), False)
 
     # ---- statements ------------------------------------------------------------------------
     def stmts(self, depth, lo=0, hi=4):
@@ -64,7 +99,7 @@ class Gen:
             c = c if c >= 9 else self.r.below(9)
         if c <= 2:
             self.count("assign")
-            self.tag("SA"); self.tag("A"); self.w(self.name()); self.w(self.r.choice(ASSIGN)); self.ex()
+            self.tag("SA"); self.lhs(); self.w(self.r.choice(ASSIGN)); self.ex()
         elif c == 3:
             self.count("expr-stmt")
             self.tag("SE"); self.ex_stmt()
@@ -109,8 +144,7 @@ class Gen:
             self.count("foreach")
             self.tag("SX"); self.w("foreach")
             if self.r.chance(2, 3):
-                exspec.render(self.r, ("bin", 6, "in", ("atom", self.r.choice(NAMES)), exspec.gen(self.r, self.r.below(2))), 8,
-                              self.words, self.prefix, False)
+                self.put(("bin", 6, "in", ("atom", self.r.choice(NAMES)), exspec.gen_primary(self.r, self.r.below(2))), False)
             else:
                 self.ex()
             at = len(self.words)
